@@ -292,10 +292,8 @@ func (w *World) instrWrites(in ssa.Instruction, ws *WriteSet, g *Gen) {
 		w.callWrites(&x.Call, ws, g, x.Parent())
 	case *ssa.Go:
 		// the spawned goroutine's writes are interference, not part of the sequential frame
-		if g != nil {
-			if _, ok := g.specs.Ghosts["spawned"]; ok {
-				ws.add("G.spawned", ArrSort(SInt, SInt))
-			}
+		if _, ok := w.specs.Ghosts["spawned"]; ok {
+			ws.add("G.spawned", ArrSort(SInt, SInt))
 		}
 	case *ssa.Send, *ssa.Select:
 		w.interferenceWrites(ws, g)
